@@ -281,6 +281,9 @@ def check_c13(tier, seed):
              # features that consume *other* defaulted fields once they are switched on (the application sets the switch, not the sub-parameters)
              ({'logical_processors': 1, 'use_fixed_qindex_offsets': 1, 'qindex_offsets': [0, 8, 16, 24, 32, 40], 'key_frame_qindex_offset': -8, 'hierarchical_levels': 3}, {'kind': 'moving', 'seed': 5}, 6, (64, 64)),
              ({'logical_processors': 1, 'rate_control_mode': 2, 'target_bit_rate': 300000}, {'kind': 'moving', 'seed': 7}, 6, (64, 64)),
+             # long enough for the rate controller's buffer model to act (buffer sizes, initial/optimal levels and bias percentages are all defaulted fields)
+             ({'logical_processors': 1, 'rate_control_mode': 2, 'target_bit_rate': 100000, 'intra_period_length': 15, 'recon_enabled': 0}, {'kind': 'rails', 'seed': 8}, 30, (64, 64)),
+             ({'logical_processors': 1, 'rate_control_mode': 1, 'target_bit_rate': 200000, 'intra_period_length': 31, 'recon_enabled': 0}, {'kind': 'noise', 'seed': 10}, 40, (64, 64)),
              ({'logical_processors': 1, 'screen_content_mode': 1, 'enc_mode': 6}, {'kind': 'text', 'seed': 9}, 3, (128, 64))]
     for i in range(4 if tier == 'quick' else 12):
         cfgo = gen.swarm_cfg(rng, fields=gen.SAFE, nmax=3); cfgo['logical_processors'] = rng.choice([1, 2])
@@ -606,6 +609,11 @@ def check_c22(tier, seed):
         if g.get('rate_control_mode'): g['logical_processors'] = 4   # <=2 with recon is the drain deadlock KF-C27-vbr-recon-drain-deadlock, which short streams show too
         sim = {'policy': 'starve', 'starve_mod': 7, 'starve_rem': rng.randrange(7), 'seed': rng.randint(1, 10**6)} if i % 2 else {'policy': 'np', 'seed': 1}
         c = mk(ck, g, {'kind': 'mix', 'seed': rng.randint(1, 999)}, n, (64, 64), g={'pacing': 'each'}, sim=sim, oracles={'decode': 1, 'parse': 1, 'recon_compare': 1, 'order': 1, 'skip_priv': 1}); c['wall_timeout'] = 3000; c['sim']['step_limit'] = 400000000
+        cases.append(c)
+    # the order-hint period (128) is crossed without a key frame in reach, at every hierarchy depth (which references straddle the wrap depends on it)
+    for hl in ([0, 1, 2, 4] if tier == 'quick' else [0, 1, 2, 3, 4]):
+        g = {'hierarchical_levels': hl, 'enc_mode': 8, 'logical_processors': 2, 'intra_period_length': -1}
+        c = mk(ck, g, {'kind': 'mix', 'seed': rng.randint(1, 999)}, 190 if tier == 'quick' else 300, (64, 64), g={'pacing': 'each'}, sim={'policy': 'np', 'seed': 1}, oracles={'decode': 1, 'parse': 1, 'recon_compare': 1, 'order': 1, 'skip_priv': 1}); c['wall_timeout'] = 1500; c['sim']['step_limit'] = 100000000
         cases.append(c)
     # "exactly as well as short ones": defects that short streams show too (C02/C03 known findings) are not C22's
     rs = run_batch(ck, cases, 'plain', 'C22', ('C01', 'C03', 'TERM', 'CRASH'))   # a long stream on which the encoder crashes or hangs is not encoded as well as a short one
